@@ -97,7 +97,7 @@ def StoreSt.events (s : StoreSt) (evs : List FileEvent) : StoreSt := evs.foldl S
 /-! ## Bus -/
 
 /-- the key `StoreConfigMap.__getitem__` is called with: `some l` → entry of label `l`,
-    `none` → a key that is in no map (the labels *generator* of `_store_reader`) → default config -/
+    `none` → a key that is in no map → the map's default config (only the historical reader did that) -/
 abbrev CfgKey := Option Nat
 abbrev StoreFn (φ : Type) := CfgKey → Nat → φ
 
@@ -148,17 +148,25 @@ def storeReaderBatches (mp : Option Nat) (labels : List Nat) : List (List Nat) :
   | none => if labels.isEmpty then [] else [labels]
   | some k => if k > 1 then batchLoop k labels [] else labels.map fun l => [l]
 
-/-- config key used for label `l` by `_store_reader`.  `genKey = true` is the code as written
-    (`config[labels]` in the `max_persist == 1` branch, the generator is never a key of the map);
-    `genKey = false` is the one-word repair `config[label]`. -/
-def readerCfgKey (genKey : Bool) (mp : Option Nat) (l : Nat) : CfgKey :=
+/-- HISTORICAL DEFINITION — pinned-tree behaviour, repaired in /repo (`config[labels]` -> `config[label]`).
+    The `max_persist == 1` branch of `_store_reader` used to ask the StoreConfigMap for `config[labels]`
+    (the labels *generator*, never a key of the map), i.e. for the default config.  Kept only for the
+    counterexample `SF.C17.bus_faithful_pinned_reader_counterexample`. -/
+def readerCfgKeyPinned (mp : Option Nat) (l : Nat) : CfgKey :=
   match mp with
   | none => some l
-  | some k => if k > 1 then some l else if genKey then none else some l
+  | some k => if k > 1 then some l else none
+
+/-- config key `_store_reader` uses for label `l`.  The code (bus.py:539-555) looks the label up in every
+    branch (`read_many(…, config=config)` resolves `config_map[label]`, the single-label branch calls
+    `store.read(label, config=config[label])`): `pinnedReader = false`.  `pinnedReader = true` selects the
+    historical reader above. -/
+def readerCfgKey (pinnedReader : Bool) (mp : Option Nat) (l : Nat) : CfgKey :=
+  if pinnedReader then readerCfgKeyPinned mp l else some l
 
 /-- the frames the generator `_store_reader` yields, in order -/
-def storeReaderFrames (store : StoreFn φ) (genKey : Bool) (mp : Option Nat) (labels : List Nat) : List φ :=
-  (storeReaderBatches mp labels).flatMap fun b => b.map fun l => store (readerCfgKey genKey mp l) l
+def storeReaderFrames (store : StoreFn φ) (pinnedReader : Bool) (mp : Option Nat) (labels : List Nat) : List φ :=
+  (storeReaderBatches mp labels).flatMap fun b => b.map fun l => store (readerCfgKey pinnedReader mp l) l
 
 /-! ### `_update_series_cache_iloc` (bus.py:558-629) -/
 
@@ -242,7 +250,7 @@ def targetsOf (s : BusSt φ) (ps : List Nat) : Option (List (Nat × Option φ)) 
 
 /-- `Bus._update_series_cache_iloc(key)`; `ps` are the positions the iloc key addresses and
     `isElement` tells whether the key is a single integer. -/
-def BusSt.updateCache (store : StoreFn φ) (genKey : Bool) (st : StoreSt) (s : BusSt φ)
+def BusSt.updateCache (store : StoreFn φ) (pinnedReader : Bool) (st : StoreSt) (s : BusSt φ)
     (ps : List Nat) (isElement : Bool) : Except (Err × BusSt φ) (BusSt φ) :=
   let mpActive := s.maxPersist.isSome
   -- load = False if self._loaded_all else not self._loaded[key].all()
@@ -258,7 +266,7 @@ def BusSt.updateCache (store : StoreFn φ) (genKey : Bool) (st : StoreSt) (s : B
       let loadedCount := s.loaded.count true
       let reader : List φ :=
         if isElement then targets.map fun t => store (some t.1) t.1       -- read(label, config=self._config[label])
-        else storeReaderFrames store genKey s.maxPersist
+        else storeReaderFrames store pinnedReader s.maxPersist
                ((targets.filter fun t => t.2.isNone).map (·.1))
       let ls0 : Loop φ := { array := s.cache, loaded := s.loaded, lru := s.lru, count := loadedCount, reader := reader }
       match loopRun st s.labels s.maxPersist ls0 targets with
@@ -281,14 +289,14 @@ inductive Extracted (φ : Type)
 deriving Repr, DecidableEq
 
 /-- `Bus._extract_iloc(key)` (and `_extract_loc` once the label key is translated) -/
-def BusSt.extractIloc (store : StoreFn φ) (genKey : Bool) (st : StoreSt) (s : BusSt φ) (k : Key) :
+def BusSt.extractIloc (store : StoreFn φ) (pinnedReader : Bool) (st : StoreSt) (s : BusSt φ) (k : Key) :
     Except (Err × BusSt φ) (BusSt φ × Extracted φ) :=
   match k.positions s.labels.length with
   | .error e => .error (e, s)
   | .ok ps =>
     -- a key addressing a position twice cannot build the selection's Index (raised before any mutation)
     if k.isMulti && !decide ps.Nodup then .error (.nonUnique, s)
-    else match s.updateCache store genKey st ps (!k.isMulti) with
+    else match s.updateCache store pinnedReader st ps (!k.isMulti) with
     | .error e => .error e
     | .ok s' =>
       if k.isMulti then
@@ -303,26 +311,26 @@ def BusSt.extractIloc (store : StoreFn φ) (genKey : Bool) (st : StoreSt) (s : B
         | _ => .error (.lookup, s')
 
 /-- `for i, label in enumerate(index): yield label, self._extract_iloc(i)` -/
-def BusSt.iterElements (store : StoreFn φ) (genKey : Bool) (st : StoreSt) :
+def BusSt.iterElements (store : StoreFn φ) (pinnedReader : Bool) (st : StoreSt) :
     BusSt φ → List Nat → List (Option φ) → Except (Err × BusSt φ) (BusSt φ × List (Option φ))
   | s, [], acc => .ok (s, acc)
   | s, i :: is, acc =>
-    match s.extractIloc store genKey st (.int i) with
+    match s.extractIloc store pinnedReader st (.int i) with
     | .error e => .error e
-    | .ok (s', .element v) => BusSt.iterElements store genKey st s' is (acc ++ [v])
+    | .ok (s', .element v) => BusSt.iterElements store pinnedReader st s' is (acc ++ [v])
     | .ok (s', .bus _) => .error (.other, s')
 
 /-- `Bus.items()` / `Bus.values` consumed completely: the values delivered, in index order -/
-def BusSt.values (store : StoreFn φ) (genKey : Bool) (st : StoreSt) (s : BusSt φ) :
+def BusSt.values (store : StoreFn φ) (pinnedReader : Bool) (st : StoreSt) (s : BusSt φ) :
     Except (Err × BusSt φ) (BusSt φ × List (Option φ)) :=
   match s.maxPersist with
   | none =>
     if !s.loadedAll then
-      match s.updateCache store genKey st (List.range s.labels.length) false with   -- key = NULL_SLICE
+      match s.updateCache store pinnedReader st (List.range s.labels.length) false with   -- key = NULL_SLICE
       | .error e => .error e
       | .ok s' => .ok (s', s'.cache)
     else .ok (s, s.cache)
-  | some _ => BusSt.iterElements store genKey st s (List.range s.labels.length) []
+  | some _ => BusSt.iterElements store pinnedReader st s (List.range s.labels.length) []
 
 /-- `Bus.get(label)` for a label at position `p`: `self._series[label]`, no cache update -/
 def BusSt.get (s : BusSt φ) (p : Nat) : Option (Option φ) := s.cache[p]?
@@ -339,9 +347,9 @@ def sortPositions (labels : List Nat) (ascending : Bool) : List Nat :=
 
 /-- `Bus.sort_values(key=…)` where the key orders the frames like their labels:
     `values` (loads everything, honouring max_persist) then `_derive` of a fully loaded Series. -/
-def BusSt.sortValues (store : StoreFn φ) (genKey : Bool) (st : StoreSt) (s : BusSt φ) (ascending : Bool) :
+def BusSt.sortValues (store : StoreFn φ) (pinnedReader : Bool) (st : StoreSt) (s : BusSt φ) (ascending : Bool) :
     Except (Err × BusSt φ) (BusSt φ × BusSt φ) :=
-  match s.values store genKey st with
+  match s.values store pinnedReader st with
   | .error e => .error e
   | .ok (s', vals) =>
     let full : BusSt φ := { s' with cache := vals }
@@ -361,41 +369,41 @@ inductive BusOp
   | peek                  -- status, shapes, iteration over labels, keys, len, contains, get: no state change
 deriving Repr
 
-def BusSt.step (store : StoreFn φ) (genKey : Bool) (st : StoreSt) (s : BusSt φ) :
+def BusSt.step (store : StoreFn φ) (pinnedReader : Bool) (st : StoreSt) (s : BusSt φ) :
     BusOp → Except (Err × BusSt φ) (BusSt φ)
   | .access k =>
-    match s.extractIloc store genKey st k with
+    match s.extractIloc store pinnedReader st k with
     | .error e => .error e
     | .ok (s', _) => .ok s'
   | .values =>
-    match s.values store genKey st with
+    match s.values store pinnedReader st with
     | .error e => .error e
     | .ok (s', _) => .ok s'
   | .peek => .ok s
 
 /-- a history on one Bus with an unchanging store; stops at the first exception -/
-def BusSt.run (store : StoreFn φ) (genKey : Bool) (st : StoreSt) :
+def BusSt.run (store : StoreFn φ) (pinnedReader : Bool) (st : StoreSt) :
     BusSt φ → List BusOp → Except (Err × BusSt φ) (BusSt φ)
   | s, [] => .ok s
   | s, op :: ops =>
-    match s.step store genKey st op with
+    match s.step store pinnedReader st op with
     | .error e => .error e
-    | .ok s' => BusSt.run store genKey st s' ops
+    | .ok s' => BusSt.run store pinnedReader st s' ops
 
 /-- Every Bus that can come into existence from a store: the Bus opened on the store, a Bus after any
     successful operation (whatever happened to the file before: `st` is arbitrary at every step), the Bus
     returned by a multi-label selection, and any `_derive` of a duplicate-free selection of positions
     (`drop`, `reindex` to existing labels, `sort_index`, `head`, `tail`). -/
-inductive Reach (store : StoreFn φ) (genKey : Bool) : BusSt φ → Prop
+inductive Reach (store : StoreFn φ) (pinnedReader : Bool) : BusSt φ → Prop
   | root (labels : List Nat) (mp : Option Nat) (s : BusSt φ) :
-      labels.Nodup → BusSt.fromStore labels mp = .ok s → Reach store genKey s
+      labels.Nodup → BusSt.fromStore labels mp = .ok s → Reach store pinnedReader s
   | step (st : StoreSt) (s s' : BusSt φ) (op : BusOp) :
-      Reach store genKey s → s.step store genKey st op = .ok s' → Reach store genKey s'
+      Reach store pinnedReader s → s.step store pinnedReader st op = .ok s' → Reach store pinnedReader s'
   | selected (st : StoreSt) (s s' d : BusSt φ) (k : Key) :
-      Reach store genKey s → s.extractIloc store genKey st k = .ok (s', .bus d) → Reach store genKey d
+      Reach store pinnedReader s → s.extractIloc store pinnedReader st k = .ok (s', .bus d) → Reach store pinnedReader d
   | derived (s d : BusSt φ) (ps : List Nat) :
-      Reach store genKey s → ps.Nodup → (∀ p ∈ ps, p < s.labels.length) → s.derive ps = .ok d →
-      Reach store genKey d
+      Reach store pinnedReader s → ps.Nodup → (∀ p ∈ ps, p < s.labels.length) → s.derive ps = .ok d →
+      Reach store pinnedReader d
 
 /-! ## Spec side -/
 
